@@ -65,6 +65,18 @@ def _verif_install(hook) -> bool:
     return True
 
 
+def _lower(ch: str) -> str:
+    """Simple lower-case mapping: a mapping to several characters leaves ch unchanged."""
+    low = ch.lower()
+    return low if len(low) == 1 else ch
+
+
+def _upper(ch: str) -> str:
+    """Simple upper-case mapping (ECMAScript Canonicalize): 'ß'.upper() is 'SS', so ß stays ß."""
+    up = ch.upper()
+    return up if len(up) == 1 else ch
+
+
 class RegexVM:
     """
     Regex bytecode virtual machine.
@@ -237,7 +249,7 @@ class RegexVM:
 
                 ch = string[sp]
                 if self.ignorecase:
-                    match = ord(ch.lower()) == char_code or ord(ch.upper()) == char_code
+                    match = ord(_lower(ch)) == char_code or ord(_upper(ch)) == char_code
                 else:
                     match = ord(ch) == char_code
 
@@ -330,7 +342,7 @@ class RegexVM:
                     continue
 
                 ch = string[sp]
-                ch_code = ord(ch.lower() if self.ignorecase else ch)
+                ch_code = ord(_lower(ch) if self.ignorecase else ch)
 
                 matched = False
                 for start, end in ranges:
@@ -339,7 +351,7 @@ class RegexVM:
                         if start <= ch_code <= end:
                             matched = True
                             break
-                        ch_upper = ord(ch.upper())
+                        ch_upper = ord(_upper(ch))
                         if start <= ch_upper <= end:
                             matched = True
                             break
@@ -365,9 +377,9 @@ class RegexVM:
                     continue
 
                 ch = string[sp]
-                ch_code = ord(ch.lower() if self.ignorecase else ch)
+                ch_code = ord(_lower(ch) if self.ignorecase else ch)
                 # Under the i flag a class contains a letter if it contains either case of it
-                ch_upper = ord(ch.upper()) if self.ignorecase else ch_code
+                ch_upper = ord(_upper(ch)) if self.ignorecase else ch_code
 
                 matched = False
                 for start, end in ranges:
